@@ -476,15 +476,15 @@ func runC06(w *mon.W) {
 		{
 			h := b.info.Header
 			variants := map[string][]byte{
-				"last-byte-raw":   append(append([]byte{}, h[:len(h)-1]...), 0x55),
-				"last-byte-json":  append(append([]byte{}, h[:len(h)-1]...), 0xa9, 0x02),
-				"tail-dropped":    append([]byte{}, h[:len(h)-1]...),
-				"tail-junk":       append(append([]byte{}, h...), 0x00),
-				"tail-junk2":      append(append([]byte{}, h...), 0x71),
-				"first-byte":      append([]byte{0x35}, h[1:]...),
-				"empty":           {},
-				"prefix-only":     append([]byte{}, h[:1]...),
-				"doubled":         append(append([]byte{}, h...), h...),
+				"last-byte-raw":  append(append([]byte{}, h[:len(h)-1]...), 0x55),
+				"last-byte-json": append(append([]byte{}, h[:len(h)-1]...), 0xa9, 0x02),
+				"tail-dropped":   append([]byte{}, h[:len(h)-1]...),
+				"tail-junk":      append(append([]byte{}, h...), 0x00),
+				"tail-junk2":     append(append([]byte{}, h...), 0x71),
+				"first-byte":     append([]byte{0x35}, h[1:]...),
+				"empty":          {},
+				"prefix-only":    append([]byte{}, h[:1]...),
+				"doubled":        append(append([]byte{}, h...), h...),
 			}
 			if len(h) > 4 {
 				mid := append([]byte{}, h...)
